@@ -361,6 +361,12 @@ def p_C08(ctx):
     a = flow_trace(ctx, "decode", 10 ** 9, 10 ** 9, profile="release", chunk=700)
     b = flow_trace(ctx, "decode", 10 ** 9, 10 ** 9, profile="dev", chunk=700)
     compare_profiles(ctx, "decode", a, b)
+    # the structured invalid points of C09 (twist points outside the subgroup: orders 13, 1621, generic; other curves; near-curve
+    # points whose curve equation fails in a single limb) offered to the decoders only, in both profiles
+    tw = twist_file(ctx, 6 if ctx.quick() else 40)
+    a = flow_trace(ctx, "affine", 10 ** 9, 10 ** 9, profile="release", chunk=600, extra=["--in", tw, "--focus", "decoders"], label="twist-dec")
+    b = flow_trace(ctx, "affine", 10 ** 9, 10 ** 9, profile="dev", chunk=600, extra=["--in", tw, "--focus", "decoders"], label="twist-dec")
+    compare_profiles(ctx, "twist-dec", a, b)
 
 
 def p_C09(ctx):
